@@ -3,6 +3,7 @@ the model to the code for it, and which projection of the outputs the property s
 from __future__ import annotations
 
 import copy
+from collections import Counter
 import itertools
 import json
 import os
@@ -716,31 +717,54 @@ def roundtrip_tie(ctx: Ctx, res: Result, n: int):
         def tags():
             return [rng.choice(tagpool[:7] if rng.random() < 0.93 else tagpool) for _ in range(rng.choice([0, 0, 1, 2, 3]))]
         ft, fk, fn = tags(), rng.choice(d["feature"] if rng.random() < 0.97 else d["scenario"]), txt()
+        def table():
+            if rng.random() < 0.65:
+                return []
+            w_ = rng.choice([1, 1, 2, 3, 4])
+            cells_ = ["", "a", "1 2", "é😀", "x:y", "@t", "#c", "Given", "<v>", "a\u00a0b", "\u3000", "a|b", "a\\nb", " lead", "trail ", "a\nb", '"""']
+            rows_ = [[rng.choice(cells_[:10] if rng.random() < 0.93 else cells_) for _ in range(w_)] for _ in range(rng.choice([1, 2, 3, 5]))]
+            if rng.random() < 0.04:
+                rows_[-1] = rows_[-1][:-1]          # ragged / zero cells: not well formed
+            return rows_
         scs = []
         for _ in range(rng.choice([0, 1, 1, 2, 3, 5])):
-            def table():
-                if rng.random() < 0.65:
-                    return []
-                w_ = rng.choice([1, 1, 2, 3, 4])
-                cells_ = ["", "a", "1 2", "é😀", "x:y", "@t", "#c", "Given", "<v>", "a\u00a0b", "\u3000", "a|b", "a\\nb", " lead", "trail ", "a\nb", '"""']
-                rows_ = [[rng.choice(cells_[:10] if rng.random() < 0.93 else cells_) for _ in range(w_)] for _ in range(rng.choice([1, 2, 3, 5]))]
-                if rng.random() < 0.04:
-                    rows_[-1] = rows_[-1][:-1]          # ragged / zero cells: not well formed
-                return rows_
             st = [(rng.choice(steps_kw) if rng.random() < 0.97 else rng.choice(steps_kw).strip(), txt(), table()) for _ in range(rng.choice([0, 1, 2, 3, 4]))]
-            scs.append((tags(), rng.choice(d["scenario"] + d["scenarioOutline"]), txt(), st))
-        args = [dn, "".join(t + "\0" for t in ft), fk, fn]
-        for t_, k_, n_, st in scs:
+            exs = []
+            if rng.random() < 0.35:
+                for _ in range(rng.choice([1, 1, 2, 3])):
+                    tb_ = table() if rng.random() < 0.3 else [[rng.choice(["a", "b c", "", "<x>", "é"]) for _ in range(w2_)] for w2_ in [rng.choice([1, 2, 3])] for _ in range(rng.choice([1, 2, 4]))]
+                    exs.append((tags(), rng.choice(d["examples"] if rng.random() < 0.97 else d["scenario"]), txt(), tb_))
+            scs.append((tags(), rng.choice(d["scenario"] + d["scenarioOutline"]), txt(), st, exs))
+        def enc_steps(st):
             enc_st = ""
             for k, x, tb in st:
                 enc_st += k + "\0" + x + "\0" + str(len(tb)) + "\0"
                 for row_ in tb:
                     enc_st += str(len(row_)) + "\0" + "".join(c_ + "\0" for c_ in row_)
-            args += ["".join(t + "\0" for t in t_), k_, n_, enc_st]
-        if any("\0" in x for x in [fk, fn] + [y for t_, k_, n_, st in scs for y in [k_, n_] + [z for p in st for z in p[:2]]]):
+            return enc_st
+        bg_ = ""
+        if rng.random() < 0.4:
+            bst = [(rng.choice(steps_kw), txt(), table()) for _ in range(rng.choice([0, 1, 2, 3]))]
+            bkw = rng.choice(d["background"] if rng.random() < 0.97 else d["scenario"])
+            bnm = txt()
+            if "\0" not in bkw + bnm and not any("\0" in k + x for k, x, _ in bst):
+                bg_ = bkw + "\0" + bnm + "\0" + enc_steps(bst)
+                res.stats["roundtrip_models_with_background"] += 1
+        args = [dn, "".join(t + "\0" for t in ft), fk, fn, bg_]
+        for t_, k_, n_, st, exs in scs:
+            enc_ex = ""
+            for et_, ek_, en_, etb_ in exs:
+                enc_ex += str(len(et_)) + "\0" + "".join(t + "\0" for t in et_) + ek_ + "\0" + en_ + "\0" + str(len(etb_)) + "\0"
+                for row_ in etb_:
+                    enc_ex += str(len(row_)) + "\0" + "".join(c_ + "\0" for c_ in row_)
+            if any("\0" in ek_ + en_ for _, ek_, en_, _ in exs):
+                enc_ex = ""
+            res.stats["roundtrip_examples_blocks"] += len(exs) if enc_ex else 0
+            args += ["".join(t + "\0" for t in t_), k_, n_, enc_steps(st), enc_ex]
+        if any("\0" in x for x in [fk, fn] + [y for t_, k_, n_, st, _e in scs for y in [k_, n_] + [z for p in st for z in p[:2]]]):
             continue
-        res.stats["roundtrip_steps_with_table"] += sum(1 for t_, k_, n_, st in scs for p in st if p[2])
-        reqs.append(driver.request("render2", *args))
+        res.stats["roundtrip_steps_with_table"] += sum(1 for t_, k_, n_, st, _e in scs for p in st if p[2])
+        reqs.append(driver.request("render4", *args))
         models.append((dn, ft, fk, fn, scs))
     outs = driver.batch(reqs) if reqs else []
     n_wf = 0
@@ -1244,7 +1268,9 @@ def run_C13(ctx: Ctx) -> Result:
             lines.append(" " * r.randrange(0, 8) + c)
         holder = r.choice(["  Background:\n    Given b\n", "  Scenario: s\n    Given b\n", "  Scenario Outline: o\n    Given <a>\n"])
         tail = r.choice(["    And after\n", "", "  Scenario: next\n    Given n\n", "    Examples:\n      | a |\n      | 1 |\n"])
-        docs.append("Feature: f\n" + holder + ind + d + media + "\n" + "".join(l + "\n" for l in lines) + ind + d + "\n" + tail)
+        # the closing line only has to START with the delimiter: whatever follows it on the line is ignored
+        closer = d + r.choice(["", "", "", "", " x", "trailer", d[0], "  ", " " + d, "json"])
+        docs.append("Feature: f\n" + holder + ind + d + media + "\n" + "".join(l + "\n" for l in lines) + ind + closer + "\n" + tail)
     res.merge(streams.parse_stream(docs + streams.corpus_docs(), proj_docstrings, modes=(False,), nontrivial=lambda i: "ok" in i))
     # matcher in the content state
     cases = []
@@ -1254,6 +1280,11 @@ def run_C13(ctx: Ctx) -> Result:
                 for pre in ("", "  ", "      "):
                     cases.append(("DocStringSeparator", "en", "en", indent, sep, pre + line + "\n"))
                     cases.append(("Other", "en", "en", indent, sep, pre + line + "\n"))
+    for sep in ['"""', "```"]:
+        for line in ['``` x', '```trailer', '````', '""" end', '""""', '"""json', '``` ```', '""" """', "```\t", '"""\u00a0']:
+            for pre in ("", "   "):
+                cases.append(("DocStringSeparator", "en", "en", 2, sep, pre + line + "\n"))
+                cases.append(("Other", "en", "en", 2, sep, pre + line + "\n"))
     for line in content_pool:
         cases.append(("DocStringSeparator", "en", "en", 0, None, "   " + line + " media \n"))
     res.merge(streams.match_stream(cases))
@@ -1339,6 +1370,50 @@ def run_C14(ctx: Ctx) -> Result:
                              f"the next line ({K[q]}) is treated differently than without the unexpected line")
                     break
     res.stats["recovery_pairs_checked"] = n_rec
+    # ---- the statement of `C14_errors_classified` / `C04_error_locations_in_source` (Props/C14ErrorsDoc) evaluated on the
+    # IMPLEMENTATION: every error of every rejected parse is one of five classes, each tied to its own physical line
+    n_cls = Counter()
+    for d_ in docs:
+        if impl.is_existing_path(d_):
+            continue
+        for stop_ in (False, True):
+            o_ = impl.parse(d_, stop_)
+            if "errors" not in o_:
+                continue
+            ls_ = d_.split("\n")
+            nl_ = len(ls_) - 1 + (1 if ls_[-1] else 0)
+            for e_ in o_["errors"]:
+                li_, c_ = e_["location"]["line"], e_["location"].get("column")
+                l_ = (ls_[li_ - 1] if 1 <= li_ <= len(ls_) else None)
+                ty_, msg_ = e_["type"], e_["message"]
+                bad = None
+                if not msg_.startswith(f"({li_}:{c_ if c_ is not None else 0}): "):
+                    bad = "message does not start with its own (line:column) position"
+                elif ty_ == "UnexpectedEOFException":
+                    if li_ != nl_ + 1 or c_ is not None or ": unexpected end of file, expected: " not in msg_:
+                        bad = "end-of-file error not one line past the last / with a column"
+                elif l_ is None or c_ is None or not (1 <= c_ <= len(l_)) or l_[c_ - 1].isspace():
+                    bad = "location is not a non-blank character of a line of the document"
+                elif ty_ == "UnexpectedTokenException":
+                    ind_ = len(l_) - len(l_.lstrip())
+                    if c_ != ind_ + 1 or not msg_.endswith(f", got '{l_.strip()}'") or ": expected: #" not in msg_:
+                        bad = "unexpected-line error not at the first non-blank of its line / not quoting the trimmed line"
+                elif "A tag may not contain whitespace" in msg_:
+                    if l_[c_ - 1] != "@" or not l_.lstrip().startswith("@"):
+                        bad = "tag error not at the '@' of a tag on a tag line"
+                elif ty_ == "NoSuchLanguageException":
+                    if l_[c_ - 1] != "#" or c_ != len(l_) - len(l_.lstrip()) + 1 or not msg_.endswith("Language not supported: " + l_.split(":", 1)[1].strip()):
+                        bad = "unknown-language error not at the '#' of its header line / not naming the header's language"
+                elif "inconsistent cell count within the table" in msg_:
+                    if l_[c_ - 1] != "|" or c_ != len(l_) - len(l_.lstrip()) + 1:
+                        bad = "ragged-table error not at the leading '|' of a row"
+                else:
+                    bad = "an error of none of the five classes"
+                n_cls[ty_ if "Unexpected" in ty_ or "Language" in ty_ else msg_.split("): ", 1)[-1][:24]] += 1
+                if bad:
+                    res.fail("errors-classified", {"source": d_, "stop": stop_, "default_dialect": "en"}, e_, {"line_text": l_}, bad)
+    for k_, v_ in n_cls.items():
+        res.stats["error_class:" + k_] = v_
     # ---- theorem-driven tie (Props/C14Recover): wherever `C14_unexpected_line_check` applies (driver op `recoverok`:
     # line k+1 of a document is an unexpected line in a state whose tests all say no, no look-ahead steps over it, the run
     # stays below the cap), the IMPLEMENTATION's errors on the document must be exactly its errors on the document without
@@ -2513,7 +2588,7 @@ PROPS = {
                 rule=GEN_RULE + "plus Unicode soup with surrogates/NUL and all strings ≤ L over a 10-symbol alphabet; non-trivial = any input"),
     "C02": dict(modules=["C02", "C02Tree", "C02Text", "C02Siblings"], run=run_C02, translators=["parser_table", "grammar", "siblings"], exhaustive=True,
                 rule="all line-kind sequences up to length L through the real Parser (stub matcher) vs the grammar reading (Spec.Sentence) and the table model's events; sampled longer ones; real-text documents; non-trivial = accepted"),
-    "C03": dict(modules=["C03", "C03Tree", "C03Parse", "C03Doc", "C03Fields", "C03Roundtrip", "C03Roundtrip2"], run=run_C03, translators=["parser_table", "dialects"], rule=GEN_RULE + "non-trivial = accepted document"),
+    "C03": dict(modules=["C03", "C03Tree", "C03Parse", "C03Doc", "C03Fields", "C03Roundtrip", "C03Roundtrip2", "C03Roundtrip3", "C03Roundtrip4"], run=run_C03, translators=["parser_table", "dialects"], rule=GEN_RULE + "non-trivial = accepted document"),
     "C04": dict(modules=["C04", "C03Doc", "C14ErrorsDoc"], run=run_C04, translators=["parser_table", "dialects"], rule=GEN_RULE + "plus all rows/tag lines ≤ L over the distinguishing classes; non-trivial = any"),
     "C05": dict(modules=["C05", "C03Doc"], run=run_C05, translators=["dialects", "dialects_master"], exhaustive=True,
                 rule="complete enumeration dialect × keyword × role × layout through the real matcher; header spellings; one generated document per dialect; non-trivial = matched"),
